@@ -96,12 +96,12 @@ def small_tree(rng, pl, single=False):
     return files
 
 
-def make_meta(rng, box, version=None, via_cli=None, opts=None, single=None, tag="m"):
+def make_meta(rng, box, version=None, via_cli=None, opts=None, single=None, tag="m", files=None, kind=None):
     """Create a payload and a metafile with random options. Returns dict."""
     pl = rng.choice([16384, 32768])
     version = version or rng.choice([1, 2, 3])
     single = rng.random() < 0.25 if single is None else single
-    files = small_tree(rng, pl, single)
+    files = small_tree(rng, pl, single) if files is None else files
     root, name = cr.materialize(os.path.join(box, tag + "-p"), files, single) \
         if os.makedirs(os.path.join(box, tag + "-p"), exist_ok=True) is None else None
     opts = options(rng) if opts is None else opts
@@ -133,8 +133,7 @@ def make_meta(rng, box, version=None, via_cli=None, opts=None, single=None, tag=
         raw = open(out, "rb").read()
         kind = "cli"
     else:
-        kind = {1: ["v1"], 2: ["a2", "v2"], 3: ["a3", "hy"]}[version]
-        kind = rng.choice(kind)
+        kind = kind or rng.choice({1: ["v1"], 2: ["a2", "v2"], 3: ["a3", "hy"]}[version])
         if kind == "v1" and not single and rng.random() < 0.3:
             # piece-aligned v1 (BEP 47 padding entries in the file list)
             raw = impl.create(kind, root, out, piece_length=pl, align=True, **opts)
